@@ -52,7 +52,7 @@ for p in props:
 print('\n### 9.5 Seeded changes and the checks that catch them\n')
 print('| seed | caught by |')
 print('|---|---|')
-for d in sorted(glob.glob(os.path.join(ROOT, 'seeded', '*'))):
+for d in sorted(x for x in glob.glob(os.path.join(ROOT, 'seeded', '*')) if os.path.isdir(x)):
     m = json.load(open(os.path.join(d, 'meta.json')))
     print('| %s | %s |' % (os.path.basename(d), (m.get('detected_by') or 'no check built for this property').replace('|', '/')))
 kf = json.load(open(os.path.join(ROOT, 'known_findings.json')))
